@@ -414,3 +414,4 @@ S2("C03", "rename-the_file", R + "covered_files.py", r"\bthe_file\b", "candidate
 S2("C08", "rename-new_text", HDP, r"\bnew_text\b", "assembled")
 S2("C07", "rename-rendered", HDP, r"\brendered\b", "body")
 S2("C13", "rename-number_of_files", RPT, r"\bnumber_of_files\b", "total")
+V("C02", "lone-cr-not-folded-again", "F", "R5", EXP, 'return result.replace("\\r\\n", "\\n").replace("\\r", "\\n")', 'return result.replace("\\r\\n", "\\n")')
